@@ -5,5 +5,10 @@ WT=/dev/shm/try_$P
 git -C /repo worktree add -q --detach "$WT" HEAD || exit 2
 if git -C "$WT" apply "$DIFF"; then
   cd /verif && VERIF_REPO=$WT VERIF_OUT=$WT/.vf_out ./run "$P" --tier "$T" 2>&1 | grep "^$P tier\|HARNESS" | cut -c1-220
+  python3 -c "
+import json,sys
+d=json.load(open('$WT/.vf_out/evidence/$P.json'))
+print('families with violations:', {k:v.get('violations') for k,v in d['coverage']['families'].items() if v.get('violations')})
+" 2>/dev/null
 else echo "NOAPPLY"; fi
 git -C /repo worktree remove --force "$WT"
